@@ -262,7 +262,7 @@ def arith_cases(draw, mode, max_dims=3, max_len=2, forms=("binary", "binary", "b
 
 class Sym(Facet):
     name = "sym"
-    examples = {"quick": 1600, "thorough": 40000}
+    examples = {"quick": 1600, "thorough": 120000}
     shards = {"quick": 16, "thorough": 16}
 
     def strategy(self, tier):
@@ -274,7 +274,7 @@ class Sym(Facet):
 
 class Exact(Facet):
     name = "exact"
-    examples = {"quick": 3000, "thorough": 60000}
+    examples = {"quick": 3000, "thorough": 180000}
     shards = {"quick": 8, "thorough": 16}
 
     def strategy(self, tier):
@@ -286,7 +286,7 @@ class Exact(Facet):
 
 class Float(Facet):
     name = "float"
-    examples = {"quick": 3000, "thorough": 60000}
+    examples = {"quick": 3000, "thorough": 180000}
     shards = {"quick": 8, "thorough": 16}
 
     def strategy(self, tier):
